@@ -1,8 +1,10 @@
 // extract-C18: the choices extract/extract.go makes in its source text, as Lean facts:
 // the `restricted` table, the arms of genContent's classification switch with the Addr flag of every
 // Val literal, the `continue` guards, the two branches of the variadic test, the statements of the
-// method loop, fixConst's kind→token cases, the prefix replacer, the binding lines of the template,
-// defaultMinorVersion — plus fingerprints of the functions Model/Extract.lean transcribes and of the
+// method loop (parameter / result naming, the Stringer test), fixConst's kind→token cases and its
+// Complex case, the wrapper prefix expression (and the replacer when there is one), the condition of
+// the restricted-symbol substitution, the usePkg computation, the binding / guard / import lines of
+// the template, defaultMinorVersion — plus fingerprints of the functions Model/Extract.lean transcribes and of the
 // template text.
 package main
 
@@ -117,8 +119,10 @@ func main() {
 		var arms, typRhs, skips, vThen, vElse, methodStmts []string
 		var valLits [][3]string
 		vCond := "unrecognised: no variadic test"
-		replaced := []string{"unrecognised: no strings.NewReplacer call"}
+		replaced := []string{} // arguments of strings.NewReplacer (none: the prefix is not built with a replacer)
 		prefixExpr := "unrecognised: no prefix assignment"
+		restrictedCond := "unrecognised: no restricted test"
+		usePkg := []string{}
 		gc := common.FindFunc(f, "Extractor", "genContent")
 		if gc == nil {
 			arms = []string{"unrecognised: genContent not found"}
@@ -127,8 +131,20 @@ func main() {
 			ast.Inspect(gc.Body, func(n ast.Node) bool {
 				switch n := n.(type) {
 				case *ast.AssignStmt:
-					if len(n.Lhs) == 1 && len(n.Rhs) == 1 && text(n.Lhs[0]) == "prefix" && n.Tok == token.DEFINE {
-						prefixExpr = text(n.Rhs[0])
+					if len(n.Lhs) == 1 && len(n.Rhs) == 1 && text(n.Lhs[0]) == "prefix" {
+						if n.Tok == token.DEFINE && prefixExpr == "unrecognised: no prefix assignment" {
+							prefixExpr = text(n.Rhs[0])
+						} else {
+							prefixExpr += " ; " + text(n)
+						}
+					}
+				case *ast.IfStmt:
+					if n.Init != nil && strings.HasPrefix(text(n.Init), "rname :=") {
+						restrictedCond = text(n.Init) + "; " + text(n.Cond) + " => " + strings.Join(stmts(n.Body.List), "; ")
+					}
+				case *ast.KeyValueExpr:
+					if text(n.Key) == "\"UsePkg\"" {
+						usePkg = append(usePkg, text(n))
 					}
 				case *ast.CallExpr:
 					if text(n.Fun) == "strings.NewReplacer" {
@@ -145,6 +161,19 @@ func main() {
 				}
 				return true
 			})
+			// the usePkg computation: top-level statements of genContent that assign usePkg
+			for _, st := range gc.Body.List {
+				switch st := st.(type) {
+				case *ast.AssignStmt:
+					if len(st.Lhs) == 1 && text(st.Lhs[0]) == "usePkg" {
+						usePkg = append(usePkg, text(st))
+					}
+				case *ast.RangeStmt:
+					if strings.Contains(text(st.Body), "usePkg") {
+						usePkg = append(usePkg, "range "+text(st.Key)+", "+text(st.Value)+" "+text(st.X)+" => "+strings.Join(stmts(st.Body.List), "; "))
+					}
+				}
+			}
 			// the object loop: `for _, name := range sc.Names()`
 			var loop *ast.RangeStmt
 			ast.Inspect(gc.Body, func(n ast.Node) bool {
@@ -252,6 +281,7 @@ func main() {
 		// ---- fixConst
 		var fixCases [][2]string
 		var fixFloat []string
+		fixComplex := []string{}
 		fixFormat := "unrecognised: no fmt.Sprintf in fixConst"
 		if fc := common.FindFunc(f, "", "fixConst"); fc == nil {
 			fixCases = [][2]string{{"unrecognised: fixConst not found", ""}}
@@ -283,21 +313,30 @@ func main() {
 						if kind == "Float" {
 							fixFloat = stmts(cc.Body)
 						}
-					}
-				case *ast.CallExpr:
-					if text(n.Fun) == "fmt.Sprintf" && len(n.Args) > 0 {
-						if bl, ok := n.Args[0].(*ast.BasicLit); ok {
-							fixFormat, _ = strconv.Unquote(bl.Value)
-							var rest []string
-							for _, a := range n.Args[1:] {
-								rest = append(rest, text(a))
-							}
-							fixFormat += " <- " + strings.Join(rest, ", ")
+						if kind == "Complex" {
+							fixComplex = stmts(cc.Body)
 						}
 					}
 				}
 				return true
 			})
+			// the statement that prints a literal: the function's final `return fmt.Sprintf(...)`
+			for _, st := range fc.Body.List {
+				rs, ok := st.(*ast.ReturnStmt)
+				if !ok || len(rs.Results) != 1 {
+					continue
+				}
+				if n, ok := rs.Results[0].(*ast.CallExpr); ok && text(n.Fun) == "fmt.Sprintf" && len(n.Args) > 0 {
+					if bl, ok := n.Args[0].(*ast.BasicLit); ok {
+						fixFormat, _ = strconv.Unquote(bl.Value)
+						var rest []string
+						for _, a := range n.Args[1:] {
+							rest = append(rest, text(a))
+						}
+						fixFormat += " <- " + strings.Join(rest, ", ")
+					}
+				}
+			}
 		}
 
 		// ---- the template
@@ -337,7 +376,26 @@ func main() {
 			find("ivalue", pre(`IValue`))
 			find("field", pre(`W{{$m.Name}} func`))
 			find("method", pre(`func (W `))
-			find("guard", has(`if eq $m.Name`))
+			// the line that decides the nil guard: the one before `if W.WString == nil {`;
+			// the line that decides the import of the extracted package: the one before "{{.ImportPath}}"
+			before := func(name, next string) {
+				var hits []string
+				for i, l := range lines {
+					if l == next && i > 0 {
+						hits = append(hits, lines[i-1])
+					}
+				}
+				switch len(hits) {
+				case 1:
+					tmpl = append(tmpl, [2]string{name, hits[0]})
+				case 0:
+					tmpl = append(tmpl, [2]string{name, "unrecognised: no such line"})
+				default:
+					tmpl = append(tmpl, [2]string{name, "unrecognised: " + strings.Join(hits, " | ")})
+				}
+			}
+			before("guard", `if W.WString == nil {`)
+			before("importpkg", `"{{.ImportPath}}"`)
 			find("call", has(`$m.Ret`))
 			find("tags", has(`+build`))
 			find("package", pre(`package `))
@@ -383,6 +441,9 @@ def facts : Facts :=
     fixFormat := %s,
     replaced := %s,
     prefixExpr := %s,
+    restrictedCond := %s,
+    usePkg := %s,
+    fixComplex := %s,
     tmpl := %s,
     defaultMinor := %s }
 /-- fingerprints of the functions (and of the template text) that Model/Extract.lean transcribes -/
@@ -392,6 +453,7 @@ end YaegiVerif.Generated.C18
 `, common.LeanStrList(restricted), common.LeanStrList(arms), strings.Join(vl, ",\n     "), common.LeanStrList(typRhs),
 			common.LeanStrList(skips), common.LeanStr(vCond), common.LeanStrList(vThen), common.LeanStrList(vElse),
 			common.LeanStrList(methodStmts), leanPairs(fixCases), common.LeanStrList(fixFloat), common.LeanStr(fixFormat),
-			common.LeanStrList(replaced), common.LeanStr(prefixExpr), leanPairs(tmpl), defMinor, hashes), nil
+			common.LeanStrList(replaced), common.LeanStr(prefixExpr), common.LeanStr(restrictedCond), common.LeanStrList(usePkg),
+			common.LeanStrList(fixComplex), leanPairs(tmpl), defMinor, hashes), nil
 	})
 }
